@@ -159,6 +159,9 @@ def search(ctx):
             q2 = detector.eta_and_radpix_to_detyz(e3, r3, cy, cz)
             if np.max(np.abs(np.asarray(q2, float) - q)) > 1e-6:
                 fail(('eta2',), {'point': q.tolist()}, 'eta_and_radpix_to_detyz(detyz_to_eta_and_radpix(p)) != p')
+    from .. import history as H
+    fails += H.narrow_int_replays(ctx, 'xfab.detector.eta_and_radpix_to_detyz(eta, 1000.5, 10.25, 20.75)', lambda e: detector.eta_and_radpix_to_detyz(e, 1000.5, 10.25, 20.75), list(range(0, 361, 7)) + [1, 45, 90, 127, 128, 255, 256])
+    fails += H.narrow_int_replays(ctx, 'xfab.detector.eta_and_radpix_to_detyz(33.3, radius, 10.25, 20.75)', lambda r: detector.eta_and_radpix_to_detyz(33.3, r, 10.25, 20.75), [1, 2, 100, 127, 128, 255, 256, 1000, 40000])
     return fails
 
 
